@@ -41,6 +41,7 @@ RACE_LVSS = [H("races", "race_lvss", 2, 3, args=[4, 0, 0], **{"max-failures": 60
 
 # C18(b): the exprgen sweep contains any_sender_of as an adaptor at every position (differential against the same
 # reference model as the unwrapped tree); sch_any covers any_scheduler; strm_seq covers type_erased_stream
+CORO_RACE = [H("cororace", "coro_race_stop", 3, 4, args=list(a), **{"cache-bits": 24}) for a in ((0, 0, 0), (0, 1, 0), (0, 1, 1), (1, 0, 1), (1, 1, 1), (2, 1, 1), (2, 0, 0))]
 CORO = [H("coro", "coro_return_throws")] + [H("coro", "coro_script", args=list(a)) for a in ((0, 0, 0), (0, 1, 0), (0, 0, 1), (0, 1, 1), (1, 0, 0), (1, 1, 0), (1, 0, 1))] + [
     H("coro", "coro_script", args=[2, 0, 0], thorough_only=True), H("coro", "coro_script", args=[1, 1, 1], thorough_only=True)]
 # C20: the same enumerations in trace mode (every case's canonical observation trace is its outcome), run in every build
@@ -82,7 +83,7 @@ CHECKS = {
     "C20": {"harnesses": C20_HARNESSES, "configs": {"quick": ["c17rel", "c20dbg", "c17dbgv", "c20relv"], "thorough": ALL_CONFIGS},
             "header_matrix": True, "deadline": {"quick": 600, "thorough": 3000}},
     "C19": {"harnesses": C19_HARNESSES},
-    "C10": {"harnesses": CORO},
+    "C10": {"harnesses": CORO + CORO_RACE},
     "C11": {
         "harnesses": [
             H("traits", "traits_corpus"), H("traits", "ctx_throwing_value"),
@@ -163,6 +164,7 @@ CHECKS = {
             H("futures", "fut_v1", 3, 4, args=[1, 0]),
             H("futures", "fut_v1", 3, 4, args=[2, 0]),
             H("futures", "fut_closed"),
+            H("futures", "fut_ops", args=[5]), H("futures", "fut_ops", args=[6], thorough_only=True),
             H("futures", "fut_faults"),
             H("futures", "det_terminate"),
         ],
